@@ -13,11 +13,14 @@ def inst(pkg, harness, params=None, **kw):
 CHECKS = {}
 
 # ---------------------------------------------------------------- C20
-_q_quick = [inst("internal/container", "VHQueueStep", {"C": c}, must_reach=["enqueue", "size"]) for c in (0, 2, 3, 8, 16)]
-_q_thor = [inst("internal/container", "VHQueueStep", {"C": c}, must_reach=["enqueue", "size"], workers=2) for c in [0] + list(range(2, 41)) + [64]]
-_r_quick = [inst("internal/container", "VHQueueRun", {"A": 10, "P": 2}, must_reach=["run-end", "empty-panics"], workers=4)]
+_q_quick = [inst("internal/container", "VHQueueStep", {"C": c}, must_reach=["enqueue", "size"], requires="queue-representation") for c in (0, 2, 3, 8, 16)]
+_q_thor = [inst("internal/container", "VHQueueStep", {"C": c}, must_reach=["enqueue", "size"], workers=2, requires="queue-representation") for c in [0] + list(range(2, 41)) + [64]]
+# calibration of the step harness's reading of the representation (see VHQueueCalib); its verdict gates the instances above
+_q_calib = [inst("internal/container", "VHQueueCalib", {"A": 10, "P": 2}, workers=4, calibrates="queue-representation")]
+_r_quick = [inst("internal/container", "VHQueueRun", {"A": 10, "P": 2}, must_reach=["run-end", "empty-panics"], workers=4),
+            inst("internal/container", "VHQueueRun", {"A": 13, "P": 2}, must_reach=["run-end", "empty-panics"], workers=8)] + _q_calib
 _r_thor = [inst("internal/container", "VHQueueRun", {"A": 18, "P": 2}, must_reach=["run-end", "empty-panics"], workers=16),
-           inst("internal/container", "VHQueueRun", {"A": 9, "P": 3}, must_reach=["run-end", "empty-panics"], workers=16)]
+           inst("internal/container", "VHQueueRun", {"A": 9, "P": 3}, must_reach=["run-end", "empty-panics"], workers=16)] + _q_calib
 _s_quick = [inst("internal/container", "VHStackStep", {"L": l, "S": s}, must_reach=["push", "size", "clear"]) for l in (0, 1, 2, 4) for s in (0, 1, 2)]
 _s_thor = [inst("internal/container", "VHStackStep", {"L": l, "S": s}, must_reach=["push", "size", "clear"]) for l in range(0, 9) for s in (0, 1, 2, 3)]
 CHECKS["C20"] = dict(
